@@ -98,6 +98,7 @@ type c25Endpoint struct {
 	tenure     int
 	deliveries []c25Delivery
 	nFailed    int
+	lastFailAt time.Time
 	hangFor    time.Duration
 }
 
@@ -114,6 +115,7 @@ func c25NewEndpoint(hangFor time.Duration) *c25Endpoint {
 		}
 		if fail {
 			e.nFailed++
+			e.lastFailAt = time.Now()
 		}
 		e.mu.Unlock()
 		if fail || err != nil {
@@ -192,6 +194,25 @@ type c25Conf struct {
 }
 
 func c25Open(dir string, url string, cf c25Conf) (*c25Node, error) {
+	// a few attempts; a directory that held nothing before is wiped in between
+	_, statErr := os.Stat(filepath.Join(dir, "raft.db"))
+	fresh := statErr != nil
+	var n *c25Node
+	var err error
+	for attempt := 0; attempt < 3; attempt++ {
+		if n, err = c25OpenOnce(dir, url, cf); err == nil {
+			return n, nil
+		}
+		if fresh {
+			os.RemoveAll(dir)
+			os.MkdirAll(dir, 0o755)
+		}
+		time.Sleep(200 * time.Millisecond)
+	}
+	return nil, err
+}
+
+func c25OpenOnce(dir string, url string, cf c25Conf) (*c25Node, error) {
 	ln, err := net.Listen("tcp", "127.0.0.1:0")
 	if err != nil {
 		return nil, err
@@ -487,6 +508,7 @@ func TestVerif_C25_Service(t *testing.T) {
 	rec := vstat.New(t, "C25", "service",
 		"operation sequences (3..16 ops quick, ..40 thorough) on a real Store + cdc.Service + recording HTTP endpoint: Execute requests of 1..4 statements (insert/multi-row insert/update/delete on t1,t2, plus failing statements at any position: PK/UNIQUE/NOT NULL/CHECK violations, partially applied multi-row insert, syntax error, missing table) with/without transaction, user snapshots, endpoint outages (503 / dropped connection / fail next n; also outages during which a backlog of 4..12 sizeable batches builds up), leadership flaps (also in the middle of an outage, also followed by a restart), node restarts; the high watermark is checked after every step against what the endpoint acknowledged; config batch size {1,2,3,10} x batch delay {5,40ms} x filter {none,^t1$}; non-trivial = at least one multi-statement request and at least one fault (outage, flap, restart or snapshot); distinct by config+op sequence")
 	rapid.Check(t, func(rt *rapid.T) {
+		defer c25RecoverInfra(rec, t)
 		cf := c25Conf{
 			BatchSz:    rapid.SampledFrom([]int{1, 2, 3, 10}).Draw(rt, "batchSz"),
 			BatchDelay: time.Duration(rapid.SampledFrom([]int{5, 40}).Draw(rt, "batchDelayMs")) * time.Millisecond,
@@ -496,7 +518,7 @@ func TestVerif_C25_Service(t *testing.T) {
 
 		dir, err := os.MkdirTemp("", "c25-")
 		if err != nil {
-			rt.Skip("tempdir")
+			c25Infra("tempdir")
 		}
 		defer os.RemoveAll(dir)
 		ep := c25NewEndpoint(400 * time.Millisecond)
@@ -504,12 +526,12 @@ func TestVerif_C25_Service(t *testing.T) {
 		n, err := c25Open(dir, ep.srv.URL, cf)
 		if err != nil {
 			t.Logf("infrastructure: %v", err)
-			rt.Skip("node did not come up")
+			c25Infra("node did not come up")
 		}
 		defer func() { n.close() }()
 		model, err := vsql.OpenMem()
 		if err != nil {
-			rt.Skip("model")
+			c25Infra("model")
 		}
 		defer model.Close()
 
@@ -538,7 +560,7 @@ func TestVerif_C25_Service(t *testing.T) {
 			"CREATE TABLE t1(id INTEGER PRIMARY KEY, v TEXT NOT NULL CHECK(v <> 'bad'), u TEXT UNIQUE)",
 			"CREATE TABLE t2(id INTEGER PRIMARY KEY, v TEXT NOT NULL CHECK(v <> 'bad'), u TEXT UNIQUE)"}
 		if _, fl, err := exec(schema, true); err != nil || len(fl) != 2 || fl[0] || fl[1] {
-			rt.Skip("schema")
+			c25Infra("schema")
 		}
 		for _, s := range schema {
 			if _, err := model.Exec(s); err != nil {
@@ -611,7 +633,7 @@ func TestVerif_C25_Service(t *testing.T) {
 				if err != nil {
 					t.Fatalf("harness: cannot open any node: %v", err)
 				}
-				rt.Skip("node did not reopen")
+				c25Infra("node did not reopen")
 			}
 			hwmStart = n.svc.HighWatermark()
 		}
@@ -649,7 +671,9 @@ func TestVerif_C25_Service(t *testing.T) {
 		doFlap := func() {
 			faults = true
 			ep.mu.Lock()
-			failing := ep.down || ep.failNext > 0
+			// the leader loop is (or may still be) retrying a batch: the endpoint is
+			// failing, or it rejected a POST a moment ago and the loop may be in its back-off
+			failing := ep.down || ep.failNext > 0 || (!ep.lastFailAt.IsZero() && time.Since(ep.lastFailAt) < time.Second)
 			ep.mu.Unlock()
 			if failing {
 				rec.Label("flap-during-outage")
@@ -690,7 +714,7 @@ func TestVerif_C25_Service(t *testing.T) {
 					rec.Label(fmt.Sprintf("req-multi/tx=%v", o.Tx))
 				}
 				if !doReq(o.Stmts, o.Tx) {
-					rt.Skip("execute failed")
+					c25Infra("execute failed")
 				}
 			case "snap":
 				faults = true
@@ -721,7 +745,7 @@ func TestVerif_C25_Service(t *testing.T) {
 					multi = true
 				}
 				if !doReq(o.Stmts, o.Tx) {
-					rt.Skip("execute failed")
+					c25Infra("execute failed")
 				}
 				time.Sleep(cf.BatchDelay + 30*time.Millisecond)
 				doFlap()
@@ -734,7 +758,7 @@ func TestVerif_C25_Service(t *testing.T) {
 				ep.mu.Unlock()
 				for _, st := range o.Batch {
 					if !doReq(st, false) {
-						rt.Skip("execute failed")
+						c25Infra("execute failed")
 					}
 				}
 				time.Sleep(cf.BatchDelay + 40*time.Millisecond) // a few watermark intervals with the leader stuck
@@ -748,7 +772,7 @@ func TestVerif_C25_Service(t *testing.T) {
 					multi = true
 				}
 				if !doReq(o.Stmts, o.Tx) {
-					rt.Skip("execute failed")
+					c25Infra("execute failed")
 				}
 				time.Sleep(cf.BatchDelay + 30*time.Millisecond)
 				doFlap()
@@ -768,7 +792,7 @@ func TestVerif_C25_Service(t *testing.T) {
 		trace = append(trace, "sentinel")
 		nBefore := len(expected)
 		if !doReq([]string{"INSERT INTO t1(id, v) VALUES(1000000, 'sentinel')"}, false) {
-			rt.Skip("sentinel failed")
+			c25Infra("sentinel failed")
 		}
 		if len(expected) != nBefore+1 {
 			t.Fatalf("harness: sentinel produced %d changes", len(expected)-nBefore)
@@ -799,7 +823,7 @@ func TestVerif_C25_Service(t *testing.T) {
 			if time.Now().After(deadline) {
 				rec.Label("sentinel-timeout")
 				t.Logf("inconclusive: sentinel not delivered in 40s; history:\n  %s", strings.Join(trace, "\n  "))
-				rt.Skip("sentinel not delivered in time")
+				c25Infra("sentinel not delivered in time")
 			}
 			time.Sleep(5 * time.Millisecond)
 		}
@@ -837,9 +861,10 @@ func TestVerif_C25_Service(t *testing.T) {
 				}
 			}
 			switch {
-			case !indexSeen && flapHeads[c.Index] && !(found && at == 0 && later):
+			case flapHeads[c.Index] && !(found && at == 0 && later):
+				// (other groups of the same log entry may have travelled in a later batch)
 				fail("C25/unsent-batch-skipped-after-leader-flap", "a batch being retried when the service loses and regains leadership is never sent",
-					"change %s (statement %d of %d, tx=%v): nothing with index %d was ever delivered; its batch was at the head of the queue when the service lost and regained leadership while the endpoint was failing", c.key(), c.Stmt+1, c.NStmt, c.Tx, c.Index)
+					"change %s (statement %d of %d, tx=%v) (index %d) was never delivered; its batch was at the head of the queue when the service lost and regained leadership while the endpoint was failing", c.key(), c.Stmt+1, c.NStmt, c.Tx, c.Index)
 			case found && at == 0 && later:
 				fail("C25/later-statement-labelled-index-0", "events of the 2nd+ statement of a non-transactional request are delivered with index 0",
 					"change %s (statement %d of %d, tx=%v) was delivered labelled index %d instead of %d", c.key(), c.Stmt+1, c.NStmt, c.Tx, at, c.Index)
@@ -887,4 +912,22 @@ func c25Render(ds []c25Delivery) string {
 		sb.WriteString("] ")
 	}
 	return sb.String()
+}
+
+// c25InfraSkip unwinds a case that hit infrastructure trouble (a store that did
+// not come up, a request that could not be served): the case is counted as
+// inconclusive, it is neither a pass nor a violation.
+type c25InfraSkip struct{ why string }
+
+func c25Infra(why string) { panic(c25InfraSkip{why}) }
+
+func c25RecoverInfra(rec *vstat.Rec, t *testing.T) {
+	if r := recover(); r != nil {
+		if s, ok := r.(c25InfraSkip); ok {
+			rec.Label("inconclusive:infrastructure")
+			t.Logf("inconclusive (infrastructure): %s", s.why)
+			return
+		}
+		panic(r)
+	}
 }
